@@ -324,6 +324,17 @@ func richTour(u *universe, w *hWorld) []func() *worldOp {
 		tx(u.DNS, u.U[1], "SetUserName", []byte("carol2.elrond")),
 		tx(u.DNS, u.U[3], "SetUserName", []byte("dave.elrond")),
 	)
+	// hand-over of the create role of the collection whose counter needs two bytes: across shards (message delivered), a create by
+	// the new holder, hand-over back towards the other shard, creates by the old and the new holder
+	l = append(l,
+		sysAs(u.SC, cr, cr, "ESDTNFTCreateRoleTransfer", hi, u.U[0]),
+		sysAs(u.SC, u.U[0], u.U[0], "ESDTSetRole", hi, []byte("ESDTRoleNFTAddQuantity"), []byte("ESDTRoleNFTBurn")),
+		tx(u.U[0], u.U[0], "ESDTNFTCreate", hi, be(5), []byte("hi2"), be(2), []byte("hash-hi-u0"), []byte("attr"), []byte("uri")),
+		tx(cr, cr, "ESDTNFTCreate", hi, be(5), []byte("hi3"), be(2), []byte("hash-hi-old"), []byte("attr"), []byte("uri")),
+		sysAs(u.SC, u.U[0], u.U[0], "ESDTNFTCreateRoleTransfer", hi, u.U[3]),
+		tx(u.U[3], u.U[3], "ESDTNFTCreate", hi, be(1), []byte("hi4"), be(2), []byte("hash-hi-u3"), []byte("attr"), []byte("uri")),
+		tx(u.U[0], u.U[0], "ESDTNFTCreate", hi, be(1), []byte("hi5"), be(2), []byte("hash-hi-u0b"), []byte("attr"), []byte("uri")),
+	)
 	// a pause addressed to the non-canonical system-account address, a transfer of the token on that shard, the unpause
 	l = append(l,
 		sysAs(u.SC, u.U[0], u.SysVar, "ESDTPause", u.Fung[2]),
